@@ -158,6 +158,8 @@ pub struct Socket<'a> {
     config_changed: bool,
     /// xid of the last sent message.
     transaction_id: u32,
+    /// Whether `transaction_id` belongs to a message that was actually sent.
+    transaction_id_valid: bool,
 
     /// Max lease duration. If set, it sets a maximum cap to the server-provided lease duration.
     /// Useful to react faster to IP configuration changes and to test whether renews work correctly.
@@ -203,6 +205,7 @@ impl<'a> Socket<'a> {
             }),
             config_changed: true,
             transaction_id: 1,
+            transaction_id_valid: false,
             max_lease_duration: None,
             retry_config: RetryConfig::default(),
             ignore_naks: false,
@@ -336,7 +339,7 @@ impl<'a> Socket<'a> {
         if dhcp_repr.client_hardware_address != ethernet_addr {
             return;
         }
-        if dhcp_repr.transaction_id != self.transaction_id {
+        if !self.transaction_id_valid || dhcp_repr.transaction_id != self.transaction_id {
             return;
         }
         if !src_ip.x_is_unicast() {
@@ -640,6 +643,7 @@ impl<'a> Socket<'a> {
                 // Update state AFTER the packet has been successfully sent.
                 state.retry_at = cx.now() + self.retry_config.discover_timeout;
                 self.transaction_id = next_transaction_id;
+                self.transaction_id_valid = true;
                 Ok(())
             }
             ClientState::Requesting(state) => {
@@ -725,6 +729,7 @@ impl<'a> Socket<'a> {
                 }
 
                 self.transaction_id = next_transaction_id;
+                self.transaction_id_valid = true;
                 Ok(())
             }
         }
